@@ -78,6 +78,22 @@ func drawSet(rt *rapid.T, smallPct int) pset {
 	panic("unreachable")
 }
 
+// weighted draws one of the names with the given integer weights (name, weight, name, weight...).
+func weighted(rt *rapid.T, label string, nw ...any) string {
+	total := 0
+	for i := 1; i < len(nw); i += 2 {
+		total += nw[i].(int)
+	}
+	k := rapid.IntRange(0, total-1).Draw(rt, label)
+	for i := 0; i < len(nw); i += 2 {
+		if k < nw[i+1].(int) {
+			return nw[i].(string)
+		}
+		k -= nw[i+1].(int)
+	}
+	panic("unreachable")
+}
+
 func drawAnySet(rt *rapid.T) pset { return sets[rapid.IntRange(0, len(sets)-1).Draw(rt, "set")] }
 
 // hx prints byte strings completely up to 256 bytes, longer ones as prefix + length + fingerprint.
@@ -595,11 +611,11 @@ func layerTreeAddr(rt *rapid.T, p pset) addr {
 func TestXMSS(t *testing.T) {
 	rapid.Check(t, func(rt *rapid.T) {
 		detrand.Seed(rapid.Uint64().Draw(rt, "entropy"))
-		kind := rapid.SampledFrom([]string{"node", "sign", "pkFromSig-genuine", "pkFromSig-random", "pkFromSig-random", "pkFromSig-random"}).Draw(rt, "kind")
+		kind := weighted(rt, "kind", "node", 2, "sign", 1, "pkFromSig-genuine", 1, "pkFromSig-random", 8)
 		var p pset
 		switch kind {
 		case "sign", "pkFromSig-genuine":
-			p = drawSet(rt, 4) // 2^h' WOTS+ key generations per signature: 's' sets are ~100x dearer
+			p = drawSet(rt, 2) // 2^h' WOTS+ key generations per signature: 's' sets are ~50x dearer
 		default:
 			p = drawAnySet(rt)
 		}
@@ -672,11 +688,11 @@ func idxClass(idx, n uint32) string {
 func TestFORS(t *testing.T) {
 	rapid.Check(t, func(rt *rapid.T) {
 		detrand.Seed(rapid.Uint64().Draw(rt, "entropy"))
-		kind := rapid.SampledFrom([]string{"skGen", "node", "sign", "pkFromSig-genuine", "pkFromSig-random", "pkFromSig-random", "pkFromSig-random", "pkFromSig-random"}).Draw(rt, "kind")
+		kind := weighted(rt, "kind", "skGen", 1, "node", 2, "sign", 1, "pkFromSig-genuine", 1, "pkFromSig-random", 11)
 		var p pset
 		switch kind {
 		case "sign", "pkFromSig-genuine":
-			p = drawSet(rt, 3) // k*2^a leaves per signature
+			p = drawSet(rt, 2) // k*2^a leaves per signature: 's' sets are 20-100x dearer
 		default:
 			p = drawAnySet(rt)
 		}
@@ -786,7 +802,7 @@ func flipBit(b []byte, bit int) []byte {
 func TestHypertree(t *testing.T) {
 	rapid.Check(t, func(rt *rapid.T) {
 		detrand.Seed(rapid.Uint64().Draw(rt, "entropy"))
-		kind := rapid.SampledFrom([]string{"verify-random", "verify-random", "verify-random", "verify-genuine", "sign"}).Draw(rt, "kind")
+		kind := weighted(rt, "kind", "verify-random", 22, "verify-genuine", 1, "sign", 1)
 		var p pset
 		if kind == "verify-random" {
 			p = drawAnySet(rt)
@@ -818,11 +834,16 @@ func TestHypertree(t *testing.T) {
 			if !verify("PK.root = root computed by the reference from SIG_HT", sig, root) {
 				rt.Fatalf("%s: reference ht_verify rejects the root it computes itself (%s)", p.name, desc)
 			}
-			verify("PK.root = computed root with one bit flipped", sig, flipBit(root, rapid.IntRange(0, 8*n-1).Draw(rt, "rootbit")))
-			verify("PK.root = drawn", sig, gen.BytesN(rt, "otherroot", n))
-			layer := rapid.IntRange(0, p.r.D-1).Draw(rt, "layer")
-			bit := rapid.IntRange(0, 8*p.xmssLen()-1).Draw(rt, "bit")
-			verify(fmt.Sprintf("SIG_HT bit %d of layer %d flipped, PK.root as computed before", bit, layer), flipBit(sig, 8*layer*p.xmssLen()+bit), root)
+			switch rapid.SampledFrom([]string{"rootflip", "otherroot", "sigflip", "sigflip"}).Draw(rt, "variant") {
+			case "rootflip":
+				verify("PK.root = computed root with one bit flipped", sig, flipBit(root, rapid.IntRange(0, 8*n-1).Draw(rt, "rootbit")))
+			case "otherroot":
+				verify("PK.root = drawn", sig, gen.BytesN(rt, "otherroot", n))
+			case "sigflip":
+				layer := rapid.IntRange(0, p.r.D-1).Draw(rt, "layer")
+				bit := rapid.IntRange(0, 8*p.xmssLen()-1).Draw(rt, "bit")
+				verify(fmt.Sprintf("SIG_HT bit %d of layer %d flipped, PK.root as computed before", bit, layer), flipBit(sig, 8*layer*p.xmssLen()+bit), root)
+			}
 		default:
 			skSeed := gen.BytesN(rt, "skseed", n)
 			h = h.B(skSeed)
